@@ -187,7 +187,11 @@ PROBE_DECLS = {"std::iter::Iterator::map": "map", "std::iter::Iterator::filter":
 _SYNTH = {}
 # combinators that apply a closure to the payload: Option::map / and_then, Result::map / and_then (the `match` they abbreviate)
 PAYLOAD_DECLS = {"std::option::Option::map": ("option", "map"), "std::option::Option::and_then": ("option", "and_then"),
-                 "std::result::Result::map": ("result", "map"), "std::result::Result::and_then": ("result", "and_then")}
+                 "std::result::Result::map": ("result", "map"), "std::result::Result::and_then": ("result", "and_then"),
+                 # the error-side twins: `r.or_else(f)` == match r { Ok(v) => Ok(v), Err(e) => f(e) }; unwrap_or_else yields v / f(e)
+                 "std::result::Result::or_else": ("result", "or_else"), "std::result::Result::unwrap_or_else": ("result", "unwrap_or_else"),
+                 # `o.ok_or_else(f)` == match o { Some(v) => Ok(v), None => Err(f()) }
+                 "std::option::Option::ok_or_else": ("option", "ok_or_else")}
 
 
 def synth_payload_body(cr, container, kind, ckey, recv_ty):
@@ -213,6 +217,32 @@ def synth_payload_body(cr, container, kind, ckey, recv_ty):
     call = {"t": "call", "fn": {"decl": "std::ops::FnOnce::call_once", "dkey": "std::ops::FnOnce::call_once", "path": "std::ops::FnOnce::call_once", "key": "std::ops::FnOnce::call_once",
                                 "via": "trait", "local": 0, "ga": []}, "args": [{"m": 2}, {"m": 4}], "dest": 5, "to": 2}
     call.update(meta)
+    if kind == "ok_or_else":
+        b0 = {"s": [stmt(3, {"r": "discr", "p": 1})], "term": dict({"t": "switch", "d": {"m": 3}, "cases": [[1, 3], [0, 1]], "else": 4, "dty": other}, **meta)}
+        b1 = {"s": [stmt(4, {"r": "agg", "ak": "tuple", "ops": []})], "term": dict(call, args=[{"m": 2}, {"m": 4}])}
+        b2 = {"s": [stmt(0, {"r": "agg", "ak": "adt", "adt": RESULT, "vi": 1, "vn": "Err", "ops": [{"m": 5}]})], "term": dict({"t": "return"}, **meta)}
+        b3 = {"s": [stmt(6, {"r": "use", "o": {"m": [1, [["dc", 1, "Some"], ["f", 0, "0"]]]}}), stmt(0, {"r": "agg", "ak": "adt", "adt": RESULT, "vi": 0, "vn": "Ok", "ops": [{"m": 6}]})],
+              "term": dict({"t": "return"}, **meta)}
+        b4 = {"s": [], "term": dict({"t": "unreachable"}, **meta)}
+        body = {"key": "model::%s_%s<%s>" % (container, kind, ckey), "path": "model::%s_%s" % (container, kind), "kind": "fn", "file": "<model>", "line": 0, "hi": 0, "vis": "",
+                "argc": 2, "locals": locals_, "names": [], "blocks": [b0, b1, b2, b3, b4], "promoted": [], "closure": ckey}
+        _SYNTH[ck] = body
+        return body
+    if kind in ("or_else", "unwrap_or_else"):
+        # the closure runs on the Err payload; the Ok side passes through (or_else) / is unwrapped (unwrap_or_else)
+        b0 = {"s": [stmt(3, {"r": "discr", "p": 1})], "term": dict({"t": "switch", "d": {"m": 3}, "cases": [[0, 3], [1, 1]], "else": 4, "dty": other}, **meta)}
+        b1 = {"s": [stmt(4, {"r": "use", "o": {"m": [1, [["dc", 1, "Err"], ["f", 0, "0"]]]}})], "term": call}
+        b2 = {"s": [stmt(0, {"r": "use", "o": {"m": 5}})], "term": dict({"t": "return"}, **meta)}
+        if kind == "or_else":
+            b3 = {"s": [stmt(6, {"r": "use", "o": {"m": [1, [["dc", 0, "Ok"], ["f", 0, "0"]]]}}), stmt(0, {"r": "agg", "ak": "adt", "adt": RESULT, "vi": 0, "vn": "Ok", "ops": [{"m": 6}]})],
+                  "term": dict({"t": "return"}, **meta)}
+        else:
+            b3 = {"s": [stmt(0, {"r": "use", "o": {"m": [1, [["dc", 0, "Ok"], ["f", 0, "0"]]]}})], "term": dict({"t": "return"}, **meta)}
+        b4 = {"s": [], "term": dict({"t": "unreachable"}, **meta)}
+        body = {"key": "model::%s_%s<%s>" % (container, kind, ckey), "path": "model::%s_%s" % (container, kind), "kind": "fn", "file": "<model>", "line": 0, "hi": 0, "vis": "",
+                "argc": 2, "locals": locals_, "names": [["payload", 4]], "blocks": [b0, b1, b2, b3, b4], "promoted": [], "closure": ckey}
+        _SYNTH[ck] = body
+        return body
     b1 = {"s": [stmt(4, {"r": "use", "o": {"m": [1, [["dc", some_vi, "Some" if container == "option" else "Ok"], ["f", 0, "0"]]]}})], "term": call}
     if kind == "map":
         b2 = {"s": [stmt(0, {"r": "agg", "ak": "adt", "adt": adt, "vi": some_vi, "vn": "Some", "ops": [{"m": 5}]})], "term": dict({"t": "return"}, **meta)}
@@ -374,6 +404,41 @@ def synth_pipe_drain_body(cr, kind, into_vec):
     b5 = {"s": [], "term": dict({"t": "unreachable"}, **meta)}
     body = {"key": "model::pipe_%s" % kind, "path": "model::pipe_%s" % kind, "kind": "fn", "file": "<model>", "line": 0, "hi": 0, "vis": "",
             "argc": 1 if kind == "collect" else 2, "locals": locals_, "names": [["item", 5]], "blocks": [b0, b1, b2, done, b4, b5], "promoted": []}
+    _SYNTH[ck] = body
+    return body
+
+
+def synth_pipe_collect_result_body(cr, item_ty):
+    """`pipe.collect::<Result<Vec<T>, E>>()`: push the Ok payloads, return the first Err.
+    locals: 0 ret | 1 pipe | 2 &mut pipe | 3 next() result | 4 discr | 5 element (a Result) | 6 collection | 7 &mut collection | 8 unit |
+    9 ControlFlow | 10 discr | 11 payload | 12 residual"""
+    ck = ("pipe_collect_result", item_ty, id(cr))
+    if ck in _SYNTH:
+        return _SYNTH[ck]
+    other = _other_type(cr)
+    locals_ = [other] * 13
+    locals_[5] = item_ty
+    meta = {"f": "<model of collect::<Result<Vec<_>, _>> over an adaptor chain>", "ln": 0}
+
+    def stmt(p_, rv):
+        d = {"p": p_, "rv": rv}
+        d.update(meta)
+        return d
+    ret = dict({"t": "return"}, **meta)
+    b0 = {"s": [], "term": _mcall(meta, "model::opaque", [], 6, 1, via="direct")}
+    b1 = {"s": [stmt(2, {"r": "ref", "m": 1, "p": 1})], "term": _mcall(meta, "std::iter::Iterator::next", [{"c": 2}], 3, 2)}
+    b2 = {"s": [stmt(4, {"r": "discr", "p": 3})], "term": dict({"t": "switch", "d": {"m": 4}, "cases": [[0, 3], [1, 4]], "else": 5, "dty": other}, **meta)}
+    b3 = {"s": [stmt(0, {"r": "agg", "ak": "adt", "adt": RESULT, "vi": 0, "vn": "Ok", "ops": [{"m": 6}]})], "term": ret}
+    b4 = {"s": [stmt(5, {"r": "use", "o": {"m": [3, [["dc", 1, "Some"], ["f", 0, "0"]]]}})], "term": _mcall(meta, "std::ops::Try::branch", [{"m": 5}], 9, 6)}
+    b5 = {"s": [], "term": dict({"t": "unreachable"}, **meta)}
+    b6 = {"s": [stmt(10, {"r": "discr", "p": 9})], "term": dict({"t": "switch", "d": {"m": 10}, "cases": [[0, 7], [1, 8]], "else": 5, "dty": other}, **meta)}
+    b7 = {"s": [stmt(11, {"r": "use", "o": {"m": [9, [["dc", 0, "Continue"], ["f", 0, "0"]]]}}), stmt(7, {"r": "ref", "m": 1, "p": 6})],
+          "term": _mcall(meta, "std::vec::Vec::push", [{"c": 7}, {"m": 11}], 8, 1, via="direct")}
+    b8 = {"s": [stmt(12, {"r": "use", "o": {"m": [9, [["dc", 1, "Break"], ["f", 0, "0"]]]}})],
+          "term": _mcall(meta, "std::ops::FromResidual::from_residual", [{"m": 12}], 0, 9)}
+    b9 = {"s": [], "term": ret}
+    body = {"key": "model::pipe_collect_result", "path": "model::pipe_collect_result", "kind": "fn", "file": "<model>", "line": 0, "hi": 0, "vis": "",
+            "argc": 1, "locals": locals_, "names": [["item", 5]], "blocks": [b0, b1, b2, b3, b4, b5, b6, b7, b8, b9], "promoted": []}
     _SYNTH[ck] = body
     return body
 
@@ -1113,7 +1178,7 @@ class AI:
         pay = PAYLOAD_DECLS.get(M.norm_path(callee.get("path", "")))
         if pay is not None and to is not None and len(args) == 2 and len(st.frames) < self.max_depth:
             fv = self.resolve(st, args[1])
-            if fv[0] == "closure" and fv[1] in self.cr.fns and self.cr.fns[fv[1]]["argc"] == 2 and (
+            if fv[0] == "closure" and fv[1] in self.cr.fns and self.cr.fns[fv[1]]["argc"] == (1 if pay[1] == "ok_or_else" else 2) and (
                     INLINE_PRIVATE_HELPERS or self.hooks.inline(self, st, fv[1], self.cr.fns[fv[1]])):
                 pl = M.op_place(term["args"][0])
                 recv_ty = frame.body["locals"][pl] if isinstance(pl, int) and pl < len(frame.body["locals"]) else None
@@ -1232,6 +1297,11 @@ class AI:
             if is_pipe(v):
                 dty, _ = M.place_ty(self.cr, None, term["dest"], frame.body)
                 into_vec = bool(dty is not None and (dty.adt_path() or "").endswith("vec::Vec"))
+                if dty is not None and dty.adt_path() == RESULT and dty.args() and (dty.args()[0].adt_path() or "").endswith("vec::Vec"):
+                    # Result<Vec<T>, E> from an iterator of Results: needs the element type (known for a `map` stage: its closure's result)
+                    if v[1][1][1] == "map" and v[1][3][0] == "closure" and v[1][3][1] in self.cr.fns:
+                        return push(synth_pipe_collect_result_body(self.cr, self.cr.fns[v[1][3][1]]["locals"][0]), {1: v})
+                    return None
                 return push(synth_pipe_drain_body(self.cr, "collect", into_vec), {1: v})
             return None
         if decl == "std::iter::Extend::extend" and len(args) == 2:
@@ -1310,7 +1380,7 @@ class AI:
                     return [(st, ("enum", OPTION, 0, ()))]
         # error-plumbing combinators that leave the success value alone (`r.map_err(f)?` == `match r { Ok(v) => v, Err(e) => return Err(f(e)) }`)
         if path in ("std::result::Result::map_err", "std::option::Option::ok_or", "std::option::Option::ok_or_else", "std::result::Result::ok",
-                    "std::result::Result::err", "std::result::Result::or_else") and args:
+                    "std::result::Result::err") and args:
             ty = self.operand_ty(frame, term["args"][0])
             alts = self.fork_enum(st, args[0], ty)
             if alts is not None:
@@ -1320,7 +1390,8 @@ class AI:
                     if path == "std::result::Result::map_err" and ev[1] == RESULT:
                         outs.append((s2, ev if ev[2] == 0 else ("enum", RESULT, 1, (self.sym(s2, site),))))
                     elif path in ("std::option::Option::ok_or", "std::option::Option::ok_or_else") and ev[1] == OPTION:
-                        outs.append((s2, ("enum", RESULT, 0, (ev[3][0],)) if ev[2] == 1 else ("enum", RESULT, 1, (self.sym(s2, site),))))
+                        errv = args[1] if path.endswith("ok_or") and len(args) > 1 else self.sym(s2, site)
+                        outs.append((s2, ("enum", RESULT, 0, (ev[3][0],)) if ev[2] == 1 else ("enum", RESULT, 1, (errv,))))
                     elif path == "std::result::Result::ok" and ev[1] == RESULT:
                         outs.append((s2, ("enum", OPTION, 1, (ev[3][0],)) if ev[2] == 0 else ("enum", OPTION, 0, ())))
                     elif path == "std::result::Result::err" and ev[1] == RESULT:
